@@ -12,7 +12,7 @@ from vp import lab as labmod, explore as X, faults as F, content as C, par, buil
 from vp.lab import Config
 
 LEVEL = "model_checking"
-BUDGET = {"quick": 420, "thorough": 4200}
+BUDGET = {"quick": 420, "thorough": 7200}
 
 
 # ----------------------------------------------------------------------------- part 1
@@ -35,15 +35,15 @@ def ring_scenarios(tier):
     for errpos in (0, 1, 2):
         sc.append((3, 1, 1, 3, 7, 0, -1, 0, 0, 0, errpos, -1, 0, 0, 0))
     sc.append((3, 1, 1, 3, 7, 0, -1, 0, 0, -1, 0, 0, 1, 0, 0))        # a reader error
-    # wider rings: preemption bounded in quick, unbounded in thorough
-    big = [(3, 2, 1, 3), (3, 1, 2, 3), (4, 1, 1, 4), (3, 2, 2, 3)]
-    for (iomax, nd, np_, ns) in big:
-        for role in (0, 1):
-            if tier == "quick":
-                sc.append((iomax, nd, np_, ns, full(ns), 0, -1, role, 0, -1, 0, -1, 0, 1, 1))
-            else:
+    # a deeper ring, unbounded, in both tiers (20k states)
+    sc.append((4, 1, 1, 4, 15, 0, -1, 0, 0, -1, 0, -1, 0, 0, 0))
+    # wider rings (2 readers / 2 writers: 1e5..1e6 states): thorough only, unbounded
+    big = [(3, 2, 1, 3), (3, 1, 2, 3), (3, 2, 2, 3)]
+    if tier == "thorough":
+        for (iomax, nd, np_, ns) in big:
+            for role in (0, 1):
                 sc.append((iomax, nd, np_, ns, full(ns), 0, -1, role, 0, -1, 0, -1, 0, 0, 0))
-                sc.append((iomax, nd, np_, ns, full(ns), 0, -1, role, 1, -1, 0, -1, 0, 1, 3))
+        sc.append((4, 1, 1, 4, 15, 0, -1, 1, 1, -1, 0, -1, 0, 0, 0))
     if tier == "thorough":
         for enabled in range(1, 16):
             for skip in (0, 5, 10):
@@ -59,7 +59,8 @@ def ring_scenarios(tier):
 
 
 def ring_job(j):
-    exe, sc, seconds = j
+    exe, sc, seconds, until = j
+    seconds = int(max(5, min(seconds, until - time.time())))
     args = [exe, "explore"] + [str(x) for x in sc] + ["100000000", str(seconds)]
     r = subprocess.run(args, stdout=subprocess.PIPE, stderr=subprocess.PIPE)
     out = r.stdout.decode()
@@ -236,9 +237,11 @@ def run(ctx):
     t_ring = 0.45 * (ctx.deadline - time.time())
     exe = ring_exe()
     scs = ring_scenarios(tier) if "1" in parts else []
-    per = max(20, int(t_ring * par.WORKERS / max(1, len(scs))))
-    per = min(per, 240 if tier == "quick" else 2400)
-    jobs = [(exe, sc, per) for sc in scs]
+    ring_until = time.time() + (0.5 if tier == "quick" else 0.6) * (ctx.deadline - time.time())
+    per = 200 if tier == "quick" else 3600
+    # biggest rings first so that they overlap with the many small ones
+    scs = sorted(scs, key=lambda sc: -(sc[1] + sc[2]) * 100 - sc[0] * 10 - sc[3])
+    jobs = [(exe, sc, per, ring_until) for sc in scs]
     execs = states = points = 0
     unb_complete = bounded_complete = capped = 0
     for j, r in par.pmap(ring_job, jobs, deadline=ctx.deadline):
